@@ -8,8 +8,10 @@ Transcribed code (crates/els):
 * server.rs      `handle_notification`: `didOpen → check_file`; `didChange → quick_check_file` (only when the first change's
                  text is a trigger character or its range starts at column 0, and BEFORE the change is applied to the
                  file cache) `; incremental_update`; `didSave → recheck_file`.
-* diagnostics.rs `change_kind` (`New` when `dependencies_of` is empty, `Invalid` when the cached AST is missing or the text does not
-                 parse, `NoChange` when the diff is `Nop`, else `Valid`), `recheck_file` (nothing happens on `NoChange`),
+* diagnostics.rs `change_kind` (`New` when `dependencies_of` is empty, `Valid` when the text differs from the text of the last `check_file`
+                 [added by the `fix:` commit; `legacy := true` is the function as it was at the pinned commit], `Invalid` when the
+                 cached AST is missing or the text does not parse, `NoChange` when the diff is `Nop`, else `Valid`),
+                 `recheck_file` (nothing happens on `NoChange`),
                  `check_file` (publishes the analysis of the text and registers the AST built from the file cache),
                  `quick_check_file` (diffs the cached AST against the parse of the file-cache text, patches the cached AST when the
                  lowerer accepted the chunk; publishes nothing).
@@ -146,7 +148,7 @@ structure State (Text Diag : Type) where
   cache : Option Ast
   /-- the last `publishDiagnostics` for the document -/
   published : Option Diag
-  /-- the text whose analysis is the published one (ghost) -/
+  /-- `file_cache.checked[uri]`: the text given to the last `check_file` (= the text whose analysis is the published one) -/
   publishedOf : Option Text
   /-- result of the last `change_kind` (ghost) -/
   lastKind : Option ChangeKind
@@ -175,9 +177,10 @@ def quickCheck (env : Env Text Change Diag) (c : Change) (s : State Text Diag) :
     | none => { s with lastQuick := some (none, false) }
   | _, _ => { s with lastQuick := some (none, false) }
 
-/-- `change_kind(uri)` -/
-def changeKind (env : Env Text Change Diag) (s : State Text Diag) : ChangeKind :=
+/-- `change_kind(uri)`; `legacy = true` is the code before the fix (no comparison with the last checked text) -/
+def changeKind [DecidableEq Text] (legacy : Bool) (env : Env Text Change Diag) (s : State Text Diag) : ChangeKind :=
   if !env.hasDeps then .new
+  else if !legacy && s.publishedOf ≠ s.text then .valid
   else match s.cache, s.text with
     | some old, some t =>
       match env.parse t with
@@ -185,21 +188,22 @@ def changeKind (env : Env Text Change Diag) (s : State Text Diag) : ChangeKind :
       | .err _ => .invalid
     | _, _ => .invalid
 
-def step (env : Env Text Change Diag) (s : State Text Diag) : Event Text Change → State Text Diag
+def step [DecidableEq Text] (legacy : Bool) (env : Env Text Change Diag) (s : State Text Diag) : Event Text Change → State Text Diag
   | .didOpen t => checkFile env { s with text := some t, lastQuick := none, lastKind := none } t
   | .didChange c =>
     let s1 := if env.trigger c then quickCheck env c s else { s with lastQuick := none }
     { s1 with text := s1.text.map (fun t => env.apply t c), lastKind := none }
   | .didSave =>
-    let k := changeKind env s
+    let k := changeKind legacy env s
     let s1 := { s with lastKind := some k, lastQuick := none }
     match k, s.text with
     | .noChange, _ => s1
     | _, some t => checkFile env s1 t
     | _, none => s1            -- `get_entire_code` fails: nothing is checked
 
-def run (env : Env Text Change Diag) (s : State Text Diag) (evs : List (Event Text Change)) : State Text Diag :=
-  evs.foldl (step env) s
+def run [DecidableEq Text] (legacy : Bool) (env : Env Text Change Diag) (s : State Text Diag) (evs : List (Event Text Change)) :
+    State Text Diag :=
+  evs.foldl (step legacy env) s
 
 /-- the property's demand on a state: what is published is the analysis of the current text -/
 def Converged (env : Env Text Change Diag) (s : State Text Diag) : Prop :=
